@@ -1,0 +1,37 @@
+//go:build verif
+
+package kcp
+
+// VerifE2ECore returns the protocol core of a session (use under VerifE2ELocked).
+func VerifE2ECore(s *UDPSession) *KCP { return s.kcp }
+
+// VerifE2ELocked runs f while holding the session mutex.
+func VerifE2ELocked(s *UDPSession, f func()) {
+	s.mu.Lock()
+	defer s.mu.Unlock()
+	f()
+}
+
+// VerifE2EPump does what the scheduled update callback does, minus re-scheduling itself.
+func VerifE2EPump(s *UDPSession) (interval uint32) {
+	s.mu.Lock()
+	interval = s.kcp.flush(IKCP_FLUSH_FULL)
+	if s.kcp.WaitSnd() < int(s.kcp.snd_wnd) {
+		s.notifyWriteEvent()
+	}
+	s.mu.Unlock()
+	return
+}
+
+// VerifE2EBufptr copies the unread remainder of the last message (Read's bufptr).
+func VerifE2EBufptr(s *UDPSession) []byte {
+	s.mu.Lock()
+	defer s.mu.Unlock()
+	return append([]byte(nil), s.bufptr...)
+}
+
+// VerifE2EHeaderSize reports the per-datagram overhead in front of the KCP frame.
+func VerifE2EHeaderSize(s *UDPSession) int { return s.headerSize }
+
+// VerifE2EInput feeds one datagram to the session's receive path (what readLoop does).
+func VerifE2EInput(s *UDPSession, data []byte) { s.packetInput(data) }
